@@ -212,10 +212,10 @@ def extend_siblings(ck, P):
         inst = "%s.part%s" % (sid[0], sid[1])
         ck.decide(sid in crc_fc, R, inst + ":crc", "copied on the no-checksum branch and fold_copy'd on the CRC branch",
                   "the slice part copied into the window at line %s is not passed to Crc32Fold::fold_copy on the checksum branch: those "
-                  "output bytes escape the CRC" % cs[0].line, where(fn, cs[0].line))
+                  "output bytes escape the CRC or never reach the window (later matches then copy stale bytes, for the chunkings that wrap there)" % cs[0].line, where(fn, cs[0].line))
         ck.decide(sid in adl_fc, R, inst + ":adler", "copied on the no-checksum branch and adler32_fold_copy'd on the Adler branch",
                   "the slice part copied into the window at line %s is not passed to adler32_fold_copy on the checksum branch: those "
-                  "output bytes escape the Adler-32" % cs[0].line, where(fn, cs[0].line))
+                  "output bytes escape the Adler-32 or never reach the window" % cs[0].line, where(fn, cs[0].line))
         # polarity: copy under !update_checksum, folds under update_checksum
         for c in cs:
             ss = shape.dominating_sigs(fn, c.bb)
